@@ -191,7 +191,11 @@ def search_parsing(sl):
     tree, with_pit, ak = _search_tree(sl["focus"])
     cur = sl["focus"] == "cursor"
     compact = sl.get("compact", True)
-    text = json.dumps(tree, separators=(",", ":") if compact else (", ", ": "), ensure_ascii=sl.get("ascii", False)).encode("utf-8")
+    if sl.get("pretty"):
+        # what Elasticsearch sends for ?pretty: one entry per line, a blank on BOTH sides of the colon
+        text = json.dumps(tree, indent=2, separators=(",", " : "), ensure_ascii=sl.get("ascii", False)).encode("utf-8")
+    else:
+        text = json.dumps(tree, separators=(",", ":") if compact else (", ", ": "), ensure_ascii=sl.get("ascii", False)).encode("utf-8")
     full = json.loads(text)
     core.note("response", text.decode("utf-8")[:400])
     core.trace("len", len(text))
@@ -373,10 +377,11 @@ HARNESSES = [
             doc="fast and detailed bulk accounting agree with the item list"),
     Harness("search_parsing", search_parsing, "bounded-exhaustive",
             lambda tier: [{"focus": "cursor", "compact": c, "ascii": a, "_w": 4} for c in (True, False) for a in (True, False)]
+            + [{"focus": "cursor", "pretty": True, "ascii": False, "_w": 4}, {"focus": "props", "pretty": True, "total_form": 2, "_w": 2}]
             + [{"focus": "props", "total_form": t, "_w": 2} for t in range(4)], reads=READS,
             bounds={"hits": "0..2 with sort arrays holding one of %d adversarial strings (quotes, brackets, backslash, the word sort, non-ASCII)" % len(STRINGS),
                     "hits.total": "absent / number / object eq / object gte", "after_key": "%d forms incl. dotted source names" % len(AFTER_KEYS),
-                    "key order": "6 top-level permutations, sort before/after _source", "separators": "compact and spaced", "escapes": "ASCII-escaped and raw UTF-8"},
+                    "key order": "6 top-level permutations, sort before/after _source", "separators": "compact, spaced and pretty-printed (?pretty: indentation, blanks around the colon)", "escapes": "ASCII-escaped and raw UTF-8"},
             doc="selective parse, search_after cursor and composite after_key vs. full parsing (real ijson/json)"),
     Harness("query_results", query_results, "bounded-exhaustive", lambda tier: [{"op": o} for o in ("search", "scroll-search", "paginated-search")],
             reads=READS + [runner.Query.__call__],
